@@ -18,5 +18,5 @@ sed -i "s|/verif/harness/target|/tmp/trial/harness/target|" /tmp/trial/harness/.
 grep -q /tmp/trial/harness/target /tmp/trial/harness/.cargo/config.toml || { echo "trial harness would build into /verif"; exit 2; }
 [ -f /tmp/trial/harness/miri/Cargo.toml ] && sed -i "s|/repo/oxidize-pdf-core|$WT/oxidize-pdf-core|" /tmp/trial/harness/miri/Cargo.toml
 cd /verif
-VERIF_TRIAL=/tmp/verif-trial VERIF_HARNESS=/tmp/trial/harness ./check "$id" "$@" 2>&1 | grep -E "VIOLATION|SUMMARY|INCONCL|KNOWN|error" | sed 's/replay=[^ ]* //' | cut -c1-360 | head -8
+VERIF_TRIAL=/tmp/verif-trial VERIF_HARNESS=/tmp/trial/harness ./check "$id" "$@" 2>&1 | grep -a -E "VIOLATION|SUMMARY|INCONCL|KNOWN|error" | sed 's/replay=[^ ]* //' | cut -c1-360 | head -8
 git -C $WT reset -q --hard
